@@ -15,6 +15,8 @@ enum E {
     List(Vec<E>),
     Tuple(Vec<E>),
     Map(Box<E>, Box<E>),
+    /// two-entry map display {k1: v1, k2: v2}: the keys may coincide
+    Map2(Box<E>, Box<E>, Box<E>, Box<E>),
     DictKw(Box<E>),              // dict(a=L)
     SortKw(Box<E>),              // [2, 1]|sort(reverse=L)
 }
@@ -62,6 +64,13 @@ impl E {
                 let vs = v.src(hoist, counter);
                 format!("{{{}: {}}}", ks, vs)
             }
+            E::Map2(k1, v1, k2, v2) => {
+                let a = k1.src(hoist, counter);
+                let b = v1.src(hoist, counter);
+                let c = k2.src(hoist, counter);
+                let d = v2.src(hoist, counter);
+                format!("{{{}: {}, {}: {}}}", a, b, c, d)
+            }
             E::DictKw(a) => format!("dict(a={})", a.src(hoist, counter)),
             E::SortKw(a) => format!("[2, 1]|sort(reverse={})", a.src(hoist, counter)),
         }
@@ -79,6 +88,12 @@ impl E {
                 b.lits(out);
                 c.lits(out);
             }
+            E::Map2(a, b, c, d) => {
+                a.lits(out);
+                b.lits(out);
+                c.lits(out);
+                d.lits(out);
+            }
             E::List(xs) | E::Tuple(xs) => xs.iter().for_each(|x| x.lits(out)),
         }
     }
@@ -89,6 +104,7 @@ impl E {
             E::Bin(op, a, b) => ops.contains(op) || a.has_op(ops) || b.has_op(ops),
             E::Map(a, b) => a.has_op(ops) || b.has_op(ops),
             E::Chain(a, _, b, _, c) => a.has_op(ops) || b.has_op(ops) || c.has_op(ops),
+            E::Map2(a, b, c, d) => a.has_op(ops) || b.has_op(ops) || c.has_op(ops) || d.has_op(ops),
             E::List(xs) | E::Tuple(xs) => xs.iter().any(|x| x.has_op(ops)),
         }
     }
@@ -121,6 +137,22 @@ fn depth1(pool: &[usize], ops: &[&'static str]) -> Vec<E> {
             v.push(E::List(vec![E::Lit(a), E::Lit(b)]));
             v.push(E::Tuple(vec![E::Lit(a), E::Lit(b)]));
             v.push(E::Map(Box::new(E::Lit(a)), Box::new(E::Lit(b))));
+        }
+    }
+    v
+}
+
+/// map displays with two entries over all pairs of hashable literals (equal keys included: identical
+/// and equal across kinds such as 1 / 1.0 / true), plus lists holding such maps
+fn map_displays() -> Vec<E> {
+    let keys = [0usize, 1, 2, 3, 4, 5, 6, 10, 11, 7];
+    let lit = |i: usize| Box::new(E::Lit(i));
+    let mut v = vec![];
+    for &k1 in &keys {
+        for &k2 in &keys {
+            v.push(E::Map2(lit(k1), lit(1), lit(k2), lit(2)));
+            v.push(E::Bin("==", Box::new(E::Map2(lit(k1), lit(1), lit(k2), lit(2))), Box::new(E::Map(lit(k1), lit(2)))));
+            v.push(E::List(vec![E::Map2(lit(k1), lit(5), lit(k2), lit(8))]));
         }
     }
     v
@@ -200,6 +232,7 @@ fn check_expr(env: &Environment, lit_values: &[Value], e: &E, acc: &Acc, l: &mut
             E::List(_) => "list".into(),
             E::Tuple(_) => "tuple".into(),
             E::Map(..) => "map".into(),
+            E::Map2(..) => "map2".into(),
             E::DictKw(_) => "kwarg[dict]".into(),
             E::SortKw(_) => "kwarg[sort]".into(),
             E::Lit(_) => "literal".into(),
@@ -293,6 +326,7 @@ pub fn main(args: Args) -> i32 {
     let full_pool: Vec<usize> = (0..LITS.len()).collect();
     let core_pool: Vec<usize> = (0..args.tier.pick(8usize, 11usize)).collect();
     let mut exprs = depth1(&full_pool, OPS_ALL);
+    exprs.extend(map_displays());
     let d1 = exprs.len();
     exprs.extend(depth2(&core_pool, args.tier.pick(OPS_CORE, OPS_ALL)));
     let before = exprs.len();
@@ -314,7 +348,7 @@ pub fn main(args: Args) -> i32 {
             level: "exploration",
             tier: args.tier,
             seed: args.seed,
-            rule: format!("all depth-1 expressions over a 16-literal pool x 18 binary operators + unary -/not + list/tuple/map displays + literal keyword arguments, and all depth-2 expressions ((a o b) o c, a o (b o c), 7 comparison chains, nested displays) over the first {} literals x {} operators; for each expression every non-empty subset of its literal occurrences is hoisted into context variables bound to the value the lexer produces for that literal, and Ok/Err status plus kind:text of the result must equal the all-literal (constant-folded) form; failing constant expressions must load and stay silent in dead code. distinct non-trivial = distinct expressions that evaluate successfully", core_pool.len(), args.tier.pick(OPS_CORE, OPS_ALL).len()),
+            rule: format!("all depth-1 expressions over a 16-literal pool x 18 binary operators + unary -/not + list/tuple/map displays (two-entry maps over all pairs of 10 hashable literals, equal keys included) + literal keyword arguments, and all depth-2 expressions ((a o b) o c, a o (b o c), 7 comparison chains, nested displays) over the first {} literals x {} operators; for each expression every non-empty subset of its literal occurrences is hoisted into context variables bound to the value the lexer produces for that literal, and Ok/Err status plus kind:text of the result must equal the all-literal (constant-folded) form; failing constant expressions must load and stay silent in dead code. distinct non-trivial = distinct expressions that evaluate successfully", core_pool.len(), args.tier.pick(OPS_CORE, OPS_ALL).len()),
             exhaustive: true,
             bound: json!({"literals": LITS, "ops": OPS_ALL, "depth2_pool": core_pool.len()}),
             assumptions: vec!["sequence repetition by counts >= 2^31 is excluded (lazy, unprintable); its crash behaviour belongs to C01".into()],
